@@ -8,6 +8,8 @@ import OmplModel.Proofs.RSFive
 import OmplModel.Proofs.RSFiveAll
 import OmplModel.Props.C14RS
 import OmplModel.Props.C14D
+import OmplModel.Props.C14O
+import OmplModel.Props.C14W
 /-!
 # C14 — Dubins curves: the reported path is a shortest candidate, reaches the goal, and `interpolate` drives it
 
